@@ -262,7 +262,15 @@ def d5(ctx, F):
     tvals = flow.derived(hs, {gt[0].dest["l"]}, calls="adapters") if gt else set()
     ops = [c for c in hs.calls() if strip_generics(c.callee) in ("std::collections::hash::map::HashMap::contains_key", "std::collections::hash::map::HashMap::insert",
                                                                "std::collections::hash::map::HashMap::get_mut", "std::collections::hash::map::HashMap::get") and "TopicName" in c.full]
-    ctx.floor("C07.D5.map-key.ops", len(ops), 2)
+    ctx.floor("C07.D5.map-key.ops", len(ops), 2) if ops else None
+    # the registry that maps names to routers is keyed by the whole TopicName (derived Eq/Hash over namespace and topic), not by a
+    # digest or a rendering of it: every HashMap whose values are topic channels (topic::Sender) must have K = TopicName
+    allmaps = [c for c in hs.calls() if strip_generics(c.callee).startswith("std::collections::hash::map::HashMap::") and "topic::Sender" in c.full]
+    ctx.check(len(allmaps) >= 2, "C07.D5.map-key-type", "handle_stream:no-topic-map", "handle_stream looks topics up in a map of topic channels (%d operations)" % len(allmaps), hs.span)
+    for c in allmaps:
+        ctx.check("HashMap::<selium_protocol::topic_name::TopicName," in c.full.replace(" ", "").replace("HashMap::<selium_protocol::topic_name::TopicName,", "HashMap::<selium_protocol::topic_name::TopicName,"),
+                  "C07.D5.map-key-type", "handle_stream:map-key-type:%s" % c.name(),
+                  "the topic registry is keyed by TopicName itself (found %s)" % c.full[:120], c.span)
     for c in ops:
         ctx.check(op_local(c.args[1]) in tvals, "C07.D5.map-key", "handle_stream:map-key:%s" % c.name(),
                   "topic map %s is keyed by this stream's TopicName" % c.name(), c.span)
